@@ -272,6 +272,220 @@ Check xn_encode_total :
 Print Assumptions xn_encode_total.
 
 (* ---------------------------------------------------------------------------------------------
+   serialised forms (ModelSer.v): the bytes a decoder on another object reads back
+   --------------------------------------------------------------------------------------------- *)
+From Coq Require Import Permutation.
+From ZV.C01 Require Import ModelSer ProofsSer ProofsSerCtx.
+(* HuffmanTree::deserialize(HuffmanTree::serialize()) reads the same code table back (bytes behind the table are
+   ignored), whatever order the HashMap listed the codes in (= the list order of tb) and whatever order `hm` the new
+   HashMap is visited in when the decoding tree is rebuilt *)
+Theorem ht_deserialize_serialize :
+  forall hm tb extra, ser_ok tb = true ->
+  ht_deserialize hm (ht_serialize tb ++ extra) =
+  match build_root (hm tb) with Some r => Some (mkHT r tb) | None => None end.
+Proof. exact ht_deserialize_serialize_proof. Qed.
+Check ht_deserialize_serialize :
+  forall hm tb extra, ser_ok tb = true ->
+  ht_deserialize hm (ht_serialize tb ++ extra) =
+  match build_root (hm tb) with Some r => Some (mkHT r tb) | None => None end.
+Print Assumptions ht_deserialize_serialize.
+
+(* a HuffmanDecoder on the deserialised copy of the encoder's tree decodes what the encoder wrote *)
+Theorem ht_serialized_decodes :
+  forall hm ht d b, (forall t, Permutation (hm t) t) ->
+  ser_ok (ht_codes ht) = true -> prefix_free (ht_codes ht) = true -> huff_encode ht d = Some b ->
+  exists ht', ht_deserialize hm (ht_serialize (ht_codes ht)) = Some ht' /\ ht_codes ht' = ht_codes ht /\
+              wf_ht ht' = true /\ huff_decode ht' b (length d) = Some d.
+Proof. exact ht_serialized_decodes_proof. Qed.
+Check ht_serialized_decodes :
+  forall hm ht d b, (forall t, Permutation (hm t) t) ->
+  ser_ok (ht_codes ht) = true -> prefix_free (ht_codes ht) = true -> huff_encode ht d = Some b ->
+  exists ht', ht_deserialize hm (ht_serialize (ht_codes ht)) = Some ht' /\ ht_codes ht' = ht_codes ht /\
+              wf_ht ht' = true /\ huff_decode ht' b (length d) = Some d.
+Print Assumptions ht_serialized_decodes.
+
+(* ... and the side condition holds for every tree / table pair that agree (what from_frequencies builds) *)
+Theorem wf_table_prefix_free :
+  forall ht, wf_ht ht = true -> nodup_keys (ht_codes ht) = true -> prefix_free (ht_codes ht) = true.
+Proof. exact wf_prefix_free. Qed.
+Check wf_table_prefix_free :
+  forall ht, wf_ht ht = true -> nodup_keys (ht_codes ht) = true -> prefix_free (ht_codes ht) = true.
+Print Assumptions wf_table_prefix_free.
+
+(* hence, for every HuffmanTree (tree and table agree): the decoder on deserialize(serialize(tree)) decodes what the encoder wrote *)
+Theorem tree_serialized_decodes :
+  forall hm ht d b, (forall t, Permutation (hm t) t) -> wf_ht ht = true -> ser_ok (ht_codes ht) = true ->
+  huff_encode ht d = Some b ->
+  exists ht', ht_deserialize hm (ht_serialize (ht_codes ht)) = Some ht' /\ huff_decode ht' b (length d) = Some d.
+Proof. exact tree_serialized_decodes_proof. Qed.
+Check tree_serialized_decodes :
+  forall hm ht d b, (forall t, Permutation (hm t) t) -> wf_ht ht = true -> ser_ok (ht_codes ht) = true ->
+  huff_encode ht d = Some b ->
+  exists ht', ht_deserialize hm (ht_serialize (ht_codes ht)) = Some ht' /\ huff_decode ht' b (length d) = Some d.
+Print Assumptions tree_serialized_decodes.
+
+(* ContextualHuffmanEncoder::deserialize(serialize()) = the same order, context map and code tables (`twin`), with every
+   check of deserialize passed *)
+Theorem c_deserialize_serialize :
+  forall hm e, (forall t, Permutation (hm t) t) -> cser_ok e = true ->
+  c_deserialize hm (c_serialize e) = Some (twin hm e).
+Proof. exact c_deserialize_serialize_proof. Qed.
+Check c_deserialize_serialize :
+  forall hm e, (forall t, Permutation (hm t) t) -> cser_ok e = true ->
+  c_deserialize hm (c_serialize e) = Some (twin hm e).
+Print Assumptions c_deserialize_serialize.
+
+(* a ContextualHuffmanDecoder on the deserialised copy decodes what the original encoder wrote (orders 0/1/2) *)
+Theorem ctx_serialized_decodes :
+  forall hm e d b, (forall t, Permutation (hm t) t) -> cser_ok e = true -> ctx_encode e d = Some b ->
+  exists e', c_deserialize hm (c_serialize e) = Some e' /\ wf_cenc e' = true /\ ctx_decode e' b (length d) = Some d.
+Proof. exact ctx_serialized_decodes_proof. Qed.
+Check ctx_serialized_decodes :
+  forall hm e d b, (forall t, Permutation (hm t) t) -> cser_ok e = true -> ctx_encode e d = Some b ->
+  exists e', c_deserialize hm (c_serialize e) = Some e' /\ wf_cenc e' = true /\ ctx_decode e' b (length d) = Some d.
+Print Assumptions ctx_serialized_decodes.
+
+(* ... and so do its interleaved decoders, for every stream count *)
+Theorem xn_serialized_decodes :
+  forall hm e nst d b, (forall t, Permutation (hm t) t) -> cser_ok e = true -> (1 <= nst)%nat ->
+  xn_encode e nst d = Some b ->
+  exists e', c_deserialize hm (c_serialize e) = Some e' /\ xn_decode e' nst b (length d) = Some d.
+Proof. exact xn_serialized_decodes_proof. Qed.
+Check xn_serialized_decodes :
+  forall hm e nst d b, (forall t, Permutation (hm t) t) -> cser_ok e = true -> (1 <= nst)%nat ->
+  xn_encode e nst d = Some b ->
+  exists e', c_deserialize hm (c_serialize e) = Some e' /\ xn_decode e' nst b (length d) = Some d.
+Print Assumptions xn_serialized_decodes.
+
+(* ---------------------------------------------------------------------------------------------
+   the counting loops of the context constructors (ModelNew.v)
+   --------------------------------------------------------------------------------------------- *)
+From ZV.C01 Require Import ModelNew ProofsNew ProofsNew2.
+(* ContextualHuffmanEncoder::new(t, order) for every training text, whatever the BinaryHeap builds (heap_any) and whatever
+   order the HashMaps are iterated in (hm_any): it returns an encoder (no panic below 42.9 M bytes of training), the order
+   field is the one of the constructor that finally ran, every tree agrees with its table, every context index names a
+   tree, and from two bytes of training on every tree of an order-1/2 encoder codes all 256 bytes *)
+Theorem ctx_new_wf :
+  forall heap_of hm, heap_any heap_of -> hm_any hm ->
+  forall order t, order < 3 -> bytes_ok t -> N.of_nat (length t) * 100 < W32 ->
+  exists e, ctx_new heap_of hm order t = Some e /\
+    c_order e = built_order order (length t) /\
+    (t <> [] -> wf_cenc e = true) /\
+    (t = [] -> e = mkC 0 [empty_ht] [(0, 0%nat)]) /\
+    ((2 <= length t)%nat -> order <> 0 -> forall ht, In ht (c_trees e) -> covers_bytes ht).
+Proof. exact ctx_new_wf_proof. Qed.
+Check ctx_new_wf :
+  forall heap_of hm, heap_any heap_of -> hm_any hm ->
+  forall order t, order < 3 -> bytes_ok t -> N.of_nat (length t) * 100 < W32 ->
+  exists e, ctx_new heap_of hm order t = Some e /\
+    c_order e = built_order order (length t) /\
+    (t <> [] -> wf_cenc e = true) /\
+    (t = [] -> e = mkC 0 [empty_ht] [(0, 0%nat)]) /\
+    ((2 <= length t)%nat -> order <> 0 -> forall ht, In ht (c_trees e) -> covers_bytes ht).
+Print Assumptions ctx_new_wf.
+
+(* constructor -> encode -> decode for every training text and every payload, payloads through contexts the training
+   text never showed included: whatever is accepted decodes to itself; with two bytes of training an order-1/2 encoder
+   accepts every payload; an order-1 encoder's interleaved pair is total and lossless for every stream count *)
+Theorem ctx_new_roundtrip :
+  forall heap_of hm, heap_any heap_of -> hm_any hm ->
+  forall order t, order < 3 -> bytes_ok t -> N.of_nat (length t) * 100 < W32 ->
+  exists e, ctx_new heap_of hm order t = Some e /\
+    c_order e = built_order order (length t) /\
+    forall d, bytes_ok d ->
+      (forall b, ctx_encode e d = Some b -> ctx_decode e b (length d) = Some d) /\
+      ((2 <= length t)%nat -> order <> 0 ->
+         exists b, ctx_encode e d = Some b /\ ctx_decode e b (length d) = Some d) /\
+      (c_order e = 1 -> forall nst, (1 <= nst)%nat ->
+         exists b, xn_encode e nst d = Some b /\ xn_decode e nst b (length d) = Some d).
+Proof. exact ctx_new_roundtrip_proof. Qed.
+Check ctx_new_roundtrip :
+  forall heap_of hm, heap_any heap_of -> hm_any hm ->
+  forall order t, order < 3 -> bytes_ok t -> N.of_nat (length t) * 100 < W32 ->
+  exists e, ctx_new heap_of hm order t = Some e /\
+    c_order e = built_order order (length t) /\
+    forall d, bytes_ok d ->
+      (forall b, ctx_encode e d = Some b -> ctx_decode e b (length d) = Some d) /\
+      ((2 <= length t)%nat -> order <> 0 ->
+         exists b, ctx_encode e d = Some b /\ ctx_decode e b (length d) = Some d) /\
+      (c_order e = 1 -> forall nst, (1 <= nst)%nat ->
+         exists b, xn_encode e nst d = Some b /\ xn_decode e nst b (length d) = Some d).
+Print Assumptions ctx_new_roundtrip.
+
+(* the cut of new_order2: the contexts that get a tree are min(1024, number of distinct contexts) many, and none of the
+   contexts left out was seen more often than one that was kept *)
+Theorem order2_top_contexts :
+  forall heap_of hm, heap_any heap_of -> hm_any hm ->
+  forall t, (3 <= length t)%nat -> bytes_ok t -> N.of_nat (length t) * 100 < W32 ->
+  exists e m top rest, ctx_new heap_of hm 2 t = Some e /\ ctx2_counts t = Some m /\
+    NoDup (map fst m) /\ Permutation m (top ++ rest) /\
+    map fst (c_map e) = map fst top /\ length (c_map e) = Nat.min 1024 (length m) /\
+    forall p q, In p top -> In q rest -> sumN (snd q) <= sumN (snd p).
+Proof. exact order2_map_proof. Qed.
+Check order2_top_contexts :
+  forall heap_of hm, heap_any heap_of -> hm_any hm ->
+  forall t, (3 <= length t)%nat -> bytes_ok t -> N.of_nat (length t) * 100 < W32 ->
+  exists e m top rest, ctx_new heap_of hm 2 t = Some e /\ ctx2_counts t = Some m /\
+    NoDup (map fst m) /\ Permutation m (top ++ rest) /\
+    map fst (c_map e) = map fst top /\ length (c_map e) = Nat.min 1024 (length m) /\
+    forall p q, In p top -> In q rest -> sumN (snd q) <= sumN (snd p).
+Print Assumptions order2_top_contexts.
+
+(* the iteration order the generated cases hand to the model is a permutation whatever the real context map lists *)
+Theorem hm_of_permutes :
+  forall order keys l, Permutation (hm_of order keys l) l.
+Proof. exact hm_of_perm_proof. Qed.
+Check hm_of_permutes :
+  forall order keys l, Permutation (hm_of order keys l) l.
+Print Assumptions hm_of_permutes.
+
+(* ---------------------------------------------------------------------------------------------
+   the parallel front end (ModelPar.v)
+   --------------------------------------------------------------------------------------------- *)
+From ZV.C01 Require Import ModelPar ProofsPar.
+(* ParallelHuffmanDecoder<P>::decode(ParallelHuffmanEncoder<P>::encode(d), |d|) = d for every stream count n >= 1 (the code has
+   2, 4, 8), every length, and every history of train / encode calls on the encoder object: the decoder's tree is
+   from_data of the text in force (last training text, or the first payload of an untrained encoder) *)
+Theorem par_roundtrip :
+  forall heap_of n ops, heap_any heap_of -> (1 <= n)%nat -> Forall pop_ok ops ->
+  forall d b txt, In (d, Some b, txt) (p_run heap_of n ops p_new None) ->
+  exists t ht, txt = Some t /\ from_data heap_of t = Some ht /\
+               pd_decode (pd_set_tree n ht) b (length d) = Some d.
+Proof. exact par_roundtrip_proof. Qed.
+Check par_roundtrip :
+  forall heap_of n ops, heap_any heap_of -> (1 <= n)%nat -> Forall pop_ok ops ->
+  forall d b txt, In (d, Some b, txt) (p_run heap_of n ops p_new None) ->
+  exists t ht, txt = Some t /\ from_data heap_of t = Some ht /\
+               pd_decode (pd_set_tree n ht) b (length d) = Some d.
+Print Assumptions par_roundtrip.
+
+(* the lanes do not exist: every answer of the parallel encoder is the answer of one HuffmanEncoder on the text in force *)
+Theorem par_is_single_lane :
+  forall heap_of n ops, heap_any heap_of -> (1 <= n)%nat -> Forall pop_ok ops ->
+  forall d out txt, In (d, out, txt) (p_run heap_of n ops p_new None) ->
+  exists t ht, txt = Some t /\ from_data heap_of t = Some ht /\ out = huff_encode ht d.
+Proof. exact par_is_single_lane_proof. Qed.
+Check par_is_single_lane :
+  forall heap_of n ops, heap_any heap_of -> (1 <= n)%nat -> Forall pop_ok ops ->
+  forall d out txt, In (d, out, txt) (p_run heap_of n ops p_new None) ->
+  exists t ht, txt = Some t /\ from_data heap_of t = Some ht /\ out = huff_encode ht d.
+Print Assumptions par_is_single_lane.
+
+(* AdaptiveParallelEncoder::encode_adaptive on its Huffman arms (train on the payload, then encode it, on the member object the
+   payload size selects, in whatever state that object is): never refuses, and a HuffmanDecoder on from_data(payload) returns
+   the payload *)
+Theorem adaptive_huffman_roundtrip :
+  forall heap_of d st, heap_any heap_of -> bytes_ok d -> N.of_nat (length d) < W32 ->
+  exists ht b st', from_data heap_of d = Some ht /\ ad_huffman heap_of d st = (st', Some b) /\
+                   huff_decode ht b (length d) = Some d.
+Proof. exact adaptive_huffman_roundtrip_proof. Qed.
+Check adaptive_huffman_roundtrip :
+  forall heap_of d st, heap_any heap_of -> bytes_ok d -> N.of_nat (length d) < W32 ->
+  exists ht b st', from_data heap_of d = Some ht /\ ad_huffman heap_of d st = (st', Some b) /\
+                   huff_decode ht b (length d) = Some d.
+Print Assumptions adaptive_huffman_roundtrip.
+
+(* ---------------------------------------------------------------------------------------------
    rANS / FSE / LZ half.  The import below comes after the Huffman theorems on purpose: the two halves
    define a few names twice (e.g. dec_loop) and the later import shadows the earlier one.
    --------------------------------------------------------------------------------------------- *)
